@@ -283,6 +283,15 @@ func (in *Instance) declMethods(t *geval.SymType, name string) {
 		}
 		in.funcDecl = append(in.funcDecl, fmt.Sprintf("func (%sx *%s) %s(%sy %s) %s", Mark, name, um.method, Mark, pt, um.result))
 	}
+	// deepcopy looks for a method DeepCopy(dst) (hasDeepCopyMethod): declared on the
+	// type itself for slice and map types, on a pointer to it otherwise
+	if in.Path.Preds["deepcopy.hasDeepCopyMethod("+t.R().Desc+")"] == geval.Yes {
+		if f := in.fact(t); f != nil && (f.Kind == geval.KSlice || f.Kind == geval.KMap) {
+			in.funcDecl = append(in.funcDecl, fmt.Sprintf("func (%sx %s) DeepCopy(%sdst %s)", Mark, name, Mark, name))
+		} else {
+			in.funcDecl = append(in.funcDecl, fmt.Sprintf("func (%sx *%s) DeepCopy(%sdst *%s)", Mark, name, Mark, name))
+		}
+	}
 	// hash looks for a method Hash() int32 (hasHashMethod)
 	if in.Path.Preds["hash.hasHashMethod("+t.R().Desc+")"] == geval.Yes {
 		in.funcDecl = append(in.funcDecl, fmt.Sprintf("func (%sx %s) Hash() int32", Mark, name))
@@ -425,6 +434,10 @@ func (in *Instance) holeText(h *geval.Hole) string {
 	case "arraylen":
 		return fmt.Sprintf("%sArrLen%d", Mark, h.ID)
 	case "callee":
+		if gc := in.B.Contracts.Funcs[h.Callee]; gc != nil && strings.HasPrefix(gc.Attr("abstract"), "text") && h.Class == "Ident" {
+			// a computed identifier (e.g. deepcopy's prepend): some fresh name
+			return fmt.Sprintf("%sv%d", Mark, h.ID)
+		}
 		fn := fmt.Sprintf("%sh%d", Mark, h.ID)
 		in.Callees[fn] = h
 		var as []string
@@ -453,6 +466,20 @@ func (in *Instance) holeText(h *geval.Hole) string {
 		call := fn + "(" + strings.Join(as, ", ") + ")"
 		if strings.HasSuffix(h.Class, ":returns") {
 			return "return " + call
+		}
+		// o-assigns-operand: the statements' effect is to assign that operand (an
+		// lvalue text): rendered as "<operand> = ĦS(...)", the callee's result
+		// being the operand's new value
+		if gc := in.B.Contracts.Funcs[h.Callee]; gc != nil {
+			if ao := gc.Attr("o-assigns-operand"); ao != "" {
+				for i, pn := range gc.Params {
+					if pn == strings.TrimSpace(ao) && i < len(h.Args) {
+						if t, ok := h.Args[i].(*geval.Tmpl); ok {
+							return in.renderTmpl(t, nil) + " = " + call
+						}
+					}
+				}
+			}
 		}
 		return call
 	case "fielddecl":
@@ -748,6 +775,9 @@ func (in *Instance) calleeSig(h *geval.Hole) (string, error) {
 			byName[pn] = h.Args[i]
 		}
 	}
+	if tv, ok := byName[ret].(*geval.SymType); ok {
+		ret = in.TypeExpr(tv)
+	}
 	var ps []string
 	for _, w := range strings.Fields(parts[0]) {
 		nt := strings.SplitN(w, ":", 2)
@@ -775,6 +805,9 @@ func (in *Instance) wrapper() (head, tail string, err error) {
 	in.RetType = ""
 	if len(parts) == 2 {
 		in.RetType = strings.TrimSpace(parts[1])
+		if tv, ok := in.GenArgs[in.RetType].(*geval.SymType); ok {
+			in.RetType = in.TypeExpr(tv) // the result type is one of the generator's type parameters
+		}
 	}
 	var ps, prologue []string
 	for _, w := range strings.Fields(parts[0]) {
@@ -821,7 +854,15 @@ func (in *Instance) wrapper() (head, tail string, err error) {
 	for _, l := range prologue {
 		head += l + "\n"
 	}
-	return head, "}\n", nil
+	tail = "}\n"
+	if ao := strings.TrimSpace(in.Con.Attr("o-assigns-operand")); ao != "" {
+		for _, op := range in.Operands {
+			if op.Name == ao {
+				tail = "return " + op.Spec + "\n}\n"
+			}
+		}
+	}
+	return head, tail, nil
 }
 
 func (in *Instance) tupleText(tup *geval.SymTuple) string {
